@@ -603,6 +603,7 @@ class Check:
 
     def _evaluate(self, cases):
         terms, expected = [], []
+        pre_errors = []
         seen = set()
         distinct_nt = 0
         dist: dict = {}
@@ -625,7 +626,14 @@ class Check:
                 dist[k] = dist.get(k, 0) + 1
             if len(samples) < 3:
                 samples.append({"case": c, "impl_obs": obs})
-            terms.append(self.coq_case(c))
+            try:
+                term = self.coq_case(c)
+                czll(obs)
+            except Exception as e:      # the implementation did something the model's input language cannot express
+                pre_errors.append(f"case {i}: cannot be expressed as a model case ({type(e).__name__}: {e}); "
+                                  f"case={json.dumps(c, default=str)[:300]} impl_obs={str(obs)[:300]}")
+                continue
+            terms.append(term)
             expected.append(obs)
         if terms:
             mism, outs, wall, errors = coq_eval_cases(self.PID, self.HEADER, self.RUN, terms, expected,
@@ -633,6 +641,7 @@ class Check:
                                                       case_type=getattr(self, "CASE_TYPE", None))
         else:
             mism, outs, wall, errors = [], {}, 0.0, []
+        errors = pre_errors + errors
         return mism, outs, wall, errors, {"distinct_nontrivial": distinct_nt, "dist": dist, "samples": samples}
 
     def classify(self, case, obs, trace):
